@@ -313,7 +313,7 @@ def gen_sig(rng, n, method, kwonly_p=0.3, varkw_p=0.08):
 
 def gen_param(rng, n, maxchain, kinds=('plain', 'plain', 'plain', 'hext', 'hext', 'env')):
     kind = rng.choice(kinds)
-    conv = rng.choice([0, 0, 0, 1, 1, 2, 3]) if kind != 'env' else rng.choice([1, 1, 2, 3])
+    conv = rng.choice([0, 0, 0, 1, 1, 2, 3]) if kind != 'env' else rng.choice([1, 2, 2, 3])
     p = {'n': n, 'kind': kind, 'conv': conv, 'chain': gen_chain(rng, maxchain), 'required': rng.random() < 0.65,
          'default': gen_val(rng) if rng.random() < 0.25 else None, 'ext': None}
     if kind == 'hext':
@@ -321,7 +321,9 @@ def gen_param(rng, n, maxchain, kinds=('plain', 'plain', 'plain', 'hext', 'hext'
         p['ext'] = ({'state': 'absent'} if r < 0.4 else {'state': 'value', 'val': gen_val(rng)} if r < 0.92
                     else {'state': 'broken', 'exc': rng.choice([[0, 3, 1], [0, 20], [0, 6]])})
     elif kind == 'env':
-        p['ext'] = {'state': 'absent'} if rng.random() < 0.45 else {'state': 'value', 'val': gen_val(rng, strings_only=True)}
+        p['ext'] = {'state': 'absent'} if rng.random() < 0.4 else {'state': 'value', 'val': gen_val(rng, strings_only=True)}
+        if p['ext']['state'] == 'value' and p['ext']['val'][0] == 3 and rng.random() < 0.4:
+            p['ext']['val'][2] = 1                      # blank padded: load_value strips
         if rng.random() < 0.5:
             p['env_var'] = 'PV_VALIDATE_%d' % n
     return p
